@@ -131,6 +131,12 @@ CHECKS = {
             "models/vim.py (word classes, paragraph, bracket matching, find/till with ; and ,, sticky column, window-relative H M L), the "
             "text must be unchanged and the cursor never on the terminator of a non-empty line.",
             "Reference trusted with documented calibrations; left-to-right text only.", "3/C07"),
+    "C08": ("exploration", "model-based property testing of vi editing programs (text, cursor, registers) against a reference model",
+            "Generated programs of 1-8 commands (operators x motions incl. doubled forms and both counts, x X D C s S Y p P J r ~, "
+            "i a I A o O with insert-mode editing keys, register prefixes incl. upper-case append and numbered ones) over multi-byte text, "
+            "empty buffers and lines; the written file with a cursor marker and a dump of registers (unnamed, a b c, 1-4) must equal "
+            "models/vim.py.",
+            "Reference trusted with documented calibrations; autoindent off; marks are left to C06/C07; shell filters to C04/C09.", "3/C08"),
 }
 
 ALL = ["C%02d" % i for i in range(1, 21)]
